@@ -1345,4 +1345,5 @@ class SyncedStackedTransforms(StackedTransforms):
         fn.__ptera_info__ = info
         fn.__ptera_token__ = token
         fn.__ptera_discard__ = False
-        fn.__globals__[fn.__ptera_token__] = fn
+        if token is not None:
+            fn.__globals__[token] = fn
